@@ -136,7 +136,9 @@ def features(v):
                 if 0 < i < len(v) - 1:
                     f.add(name + '@mid')
     if not f:
-        if any(ord(c) > 127 for c in v):
+        if '`' in v:
+            f.add('backtick')   # the name quote of the library's own text: nothing may treat it as one inside a literal
+        elif any(ord(c) > 127 for c in v):
             f.add('nonascii')
         elif '\n' in v:
             f.add('newline')
